@@ -28,11 +28,11 @@ def _find_line_node(fn, cn, line_text, shared_inline=False):
     return fn.node
 
 
-def r1_order(ctx):
-    ctx.rule("C17.R1", "results keyed by the input identifiers in input order", 4)
+def r1_order(ctx, rid="C17.R1", title="results keyed by the input identifiers in input order"):
+    ctx.rule(rid, title, 4)
     ix = ctx.ix
     # the cohort keeps the order it was given in: nothing between the caller's table and the algorithm asks the reader to sort the individuals
-    gd = ix.func("leaspy.models.base", "BaseModel._get_dataset", "C17.R1")
+    gd = ix.func("leaspy.models.base", "BaseModel._get_dataset", rid)
     n_conv = 0
     for f_ in ix.iter_funcs():
         if not f_.mod.startswith(("leaspy.models", "leaspy.algo", "leaspy.api")):
@@ -41,47 +41,47 @@ def r1_order(ctx):
             if isinstance(c, ast.Call) and any(k.arg == "sort_index" for k in c.keywords):
                 v = kwarg(c, "sort_index")
                 n_conv += 1
-                ctx.check(U(v) == "False", "C17.R1", f_, c, "the reader is not asked to sort the individuals", f"`{U(c)[:70]}` sorts the table by identifier before the algorithm sees it: "
+                ctx.check(U(v) == "False", rid, f_, c, "the reader is not asked to sort the individuals", f"`{U(c)[:70]}` sorts the table by identifier before the algorithm sees it: "
                           "the estimates come back in sorted order, not in the order the subjects were given", construct="cohort order kept on ingestion")
     conv = [c for c in ast.walk(gd.node) if isinstance(c, ast.Call) and U(c.func).endswith("from_dataframe")]
-    ctx.anchor(bool(conv), "C17.R1", gd, gd.node, "a table is converted by Data.from_dataframe with its default (unsorted) reading", "conversion of a table in _get_dataset", construct="table conversion")
-    f = ix.func(SC, "ScipyMinimizeAlgorithm._compute_individual_parameters", "C17.R1")
+    ctx.anchor(bool(conv), rid, gd, gd.node, "a table is converted by Data.from_dataframe with its default (unsorted) reading", "conversion of a table in _get_dataset", construct="table conversion")
+    f = ix.func(SC, "ScipyMinimizeAlgorithm._compute_individual_parameters", rid)
     cn = Canon(f.node)
     L = cn.lines(False, True)
     par = [c for c in ast.walk(f.node) if isinstance(c, ast.Call) and isinstance(c.func, ast.Call) and U(c.func.func) == "Parallel"]
     if not par:
-        raise AnalysisError("C17.R1", "anchor vanished: joblib Parallel call in scipy_minimize")
+        raise AnalysisError(rid, "anchor vanished: joblib Parallel call in scipy_minimize")
     # states filled in dataset.indices order, in a plain (insertion-ordered) dict
     b = unify(L, ["?states = {}", "for ($2.indices, ?id)", "?states[?id] = ..."])
-    ctx.check(b is not None, "C17.R1", f, f.node, "per-subject states created by iterating dataset.indices into a plain dict",
+    ctx.check(b is not None, rid, f, f.node, "per-subject states created by iterating dataset.indices into a plain dict",
               "per-subject states are not created in the order of dataset.indices (or not kept in an insertion-ordered dict)", construct="states filled in input order")
     b = b or {}
     # the Parallel generator iterates states.items(); each job gets the state of its subject
     b2 = unify(L, ["?res = Parallel(...)((delayed(...)(?st, ...patient_id=?pid...) for ?k, (?pid, ?st) in enumerate(?states.items())))"], {k: v for k, v in b.items() if k == "states"})
     gen = [g for g in ast.walk(par[0]) if isinstance(g, ast.GeneratorExp)]
     it = U(gen[0].generators[0].iter) if gen else "?"
-    ctx.check(b2 is not None, "C17.R1", f, par[0], "jobs generated in the order of the states dictionary, each with the state and identifier of its own subject",
+    ctx.check(b2 is not None, rid, f, par[0], "jobs generated in the order of the states dictionary, each with the state and identifier of its own subject",
               f"jobs iterate `{it}` / do not receive the state and identifier of the subject they iterate: not the insertion order of the per-subject states", construct="jobs in states order")
     b2 = b2 or {}
     b3 = unify(L, ["for (zip($2.indices, ?res), (?rid, ?r))"], {k: v for k, v in b2.items() if k == "res"})
-    ctx.check(b3 is not None, "C17.R1", f, par[0], "results zipped with dataset.indices", "results are not re-associated with dataset.indices in order", construct="results zipped with indices")
+    ctx.check(b3 is not None, rid, f, par[0], "results zipped with dataset.indices", "results are not re-associated with dataset.indices in order", construct="results zipped with indices")
     if b3 is not None:
         b4 = unify(L, ["?ips.add_individual_parameters(str(?rid), ?r)", "return ?ips"], b3) or unify(L, ["?ips.add_individual_parameters(?rid, ?r)", "return ?ips"], b3)
-        ctx.check(b4 is not None, "C17.R1", f, f.node, "each result stored under its own identifier", "a result is stored under another subject's identifier", construct="add_individual_parameters(id, result)")
+        ctx.check(b4 is not None, rid, f, f.node, "each result stored under its own identifier", "a result is stored under another subject's identifier", construct="add_individual_parameters(id, result)")
     states_name = cn.real_name(b.get("states", "")) or "\0"
     for bad in ast.walk(f.node):
         if isinstance(bad, ast.Call) and U(bad.func) in ("sorted", "set", "frozenset", "reversed") and any(
                 (isinstance(n, ast.Attribute) and n.attr == "indices") or (isinstance(n, ast.Name) and n.id == states_name) for a in bad.args for n in ast.walk(a)):
-            ctx.violation("C17.R1", f, bad, "identifiers are re-ordered (sorted / set) between input and output")
-    g = ix.func(MC, "McmcPersonalizeAlgorithm._get_individual_parameters", "C17.R1")
+            ctx.violation(rid, f, bad, "identifiers are re-ordered (sorted / set) between input and output")
+    g = ix.func(MC, "McmcPersonalizeAlgorithm._get_individual_parameters", rid)
     gl = Canon(g.node).lines(False, True)
     ok = unify(gl, ["return IndividualParameters.from_pytorch($2.indices, ?x)"]) is not None
     rets = [s for s in statements(g.node) if isinstance(s, ast.Return)]
-    ctx.check(ok, "C17.R1", g, rets[0] if rets else g.node, "from_pytorch(dataset.indices, ...)", "the sampling-based personalisation does not key its result by dataset.indices")
-    init = ix.func(MC, "McmcPersonalizeAlgorithm._initialize_algo", "C17.R1")
+    ctx.check(ok, rid, g, rets[0] if rets else g.node, "from_pytorch(dataset.indices, ...)", "the sampling-based personalisation does not key its result by dataset.indices")
+    init = ix.func(MC, "McmcPersonalizeAlgorithm._initialize_algo", rid)
     ci = Canon(init.node)
     ok = any(isinstance(c, ast.Call) and U(c.func).endswith("put_individual_latent_variables") and any(k.arg == "n_individuals" and ci.text(k.value) == "$2.n_individuals" for k in c.keywords) for c in ast.walk(init.node))
-    ctx.check(ok, "C17.R1", init, init.node, "one latent row per individual of the dataset", "latent variables are not initialised with one row per individual of the dataset", construct="n_individuals")
+    ctx.check(ok, rid, init, init.node, "one latent row per individual of the dataset", "latent variables are not initialised with one row per individual of the dataset", construct="n_individuals")
 
 
 HIST = ["?names = ...$1.dag.sorted_variables_by_type[IndividualLatentVariable]...", "for (?names, ?n)", "?vh[?n].append(?st[?n])",
@@ -328,6 +328,10 @@ def rules(ctx):
     r2_burn_in(ctx)
     r3_axes(ctx)
     r4_objective(ctx)
+    # the kept draws hold the very tensors the state computed: the per-individual revert run between two draws selects out of place - it never
+    # rewrites a cached or snapshot tensor that a history may reference (same rule as C02.R4)
+    from .c02 import r4_selection
+    r4_selection(ctx, rid="C17.R6")
     ctx.trust("joblib.Parallel returns results in the order of the generator; dict insertion order; torch.stack / argmin / advanced indexing semantics")
 
 
